@@ -122,6 +122,9 @@ def findMap : List A → (A → Option B) → Option B
   | a :: as, f => match f a with
     | some b => some b
     | none => findMap as f
+/-- `it.all(p)`: "Tests if every element of the iterator matches a predicate"; `true` on the empty
+iterator; it stops at the first `false`, which is not observable for a pure `p` -/
+@[reducible] def all (l : List A) (p : A → Bool) : Bool := l.all p
 /-- `opt.unwrap_or(d)` (`d` is evaluated eagerly, as in Rust) -/
 @[reducible] def unwrapOr (o : Option A) (d : A) : A :=
   match o with
